@@ -12,7 +12,7 @@ from lib import dbcsnap
 from lib import matrices as M
 
 PID = "C05"
-EXTRA_PROPS = ("Num", "C05b", "C05c", "C05d", "C05e", "C05f", "C05g", "C05h", "C05i", "C05j", "C05k", "C05l", "C05m", "C05n", "C05o", "C05p")
+EXTRA_PROPS = ("Num", "C05b", "C05c", "C05d", "C05e", "C05f", "C05g", "C05h", "C05i", "C05j", "C05k", "C05l", "C05m", "C05n", "C05o", "C05p", "C05q")
 RULE = ("case 'rt' = a generated matrix of DBC-expressible content (identifier names incl. names longer than 32 characters, ECU names "
         "of >= 2 characters, standard/extended ids, CAN FD and J1939 frames, simple and extended multiplexing, float signals, limits, "
         "start values inside the limits and on the raw grid, cycle times, value tables with quotes, comments over several lines with "
@@ -183,6 +183,25 @@ def attr_section(work):
         return None
 
 
+def prep_objects(before, work):
+    """frames and ECUs of the caller's matrix next to what `dump` made of them in its working matrix: the name and the long-name attribute
+    (Model/DbcPrep.lean prepLong); only identifier-like names (the writer replaces other characters in frame names)"""
+    out = []
+    nf = sum(1 for x in before if x[0] == "frame")
+    wf = list(work.frames)[:nf]
+    we = list(work.ecus)
+    objs = wf + we
+    if len(objs) != len(before):
+        return []
+    for (kind, name, attrs), o in zip(before, objs):
+        if not re.match(r"^[A-Za-z_][A-Za-z0-9_]*$", name):
+            continue
+        attr = "SystemMessageLongSymbol" if kind == "frame" else "SystemNodeLongSymbol"
+        lv = o.attributes.get(attr)
+        out.append({"kind": kind, "name": name, "attrs": attrs, "wname": o.name, "wlong": None if lv is None else str(lv)})
+    return out
+
+
 def run(desc):
     key = json.dumps(desc, sort_keys=True)
     if key in _cache:
@@ -191,6 +210,8 @@ def run(desc):
     try:
         db = G.build(desc)
         enc, cenc = desc["enc"], desc.get("cenc", desc["enc"])
+        db_before = [("frame", f.name, [[str(k), str(v)] for k, v in f.attributes.items()]) for f in db.frames] + \
+                    [("ecu", e.name, [[str(k), str(v)] for k, v in e.attributes.items()]) for e in db.ecus]
         shim = _CopyShim()
         canmatrix.formats.dbc.copy = shim
         try:
@@ -198,6 +219,7 @@ def run(desc):
         finally:
             canmatrix.formats.dbc.copy = _copy
         res["attrsec"] = attr_section(shim.first) if shim.first is not None else None
+        res["prep"] = prep_objects(db_before, shim.first) if shim.first is not None else []
         dbs, out = M.import_bytes(b1, "dbc", dbcImportEncoding=enc, dbcImportCommentEncoding=cenc)
         db2 = list(dbs.values())[0] if isinstance(dbs, dict) else dbs
         b2 = M.export_bytes(db2, "dbc", dbcExportEncoding=enc, dbcExportCommentEncoding=cenc)
@@ -303,6 +325,10 @@ def cases_of(desc, rng=None):
                     # no environment variables: the model writes the file line for line (writeDbc), compared with the whole file
                     cc["exact"] = True
     yield {"op": "core", "c": cc}
+    # what the writer does to long names before it writes (Model/DbcPrep.lean), per frame and ECU: the long ones first
+    objs = sorted(r.get("prep") or [], key=lambda o: -len(o["name"]))[:4]
+    for o in objs:
+        yield {"op": "prep", "c": {"m": desc, "kind": o["kind"], "name": o["name"], "attrs": o["attrs"]}}
     # the file as a whole against the reader model of Model/DbcFile.lean: as written, and damaged (lines inserted, dropped, cut)
     for variant in range(3):
         vseed = rng.randrange(1 << 30) if rng is not None else 1
@@ -585,6 +611,11 @@ def observe(case):
         return observe_whole(c, r)
     if op == "core":
         return observe_core(c, r)
+    if op == "prep":
+        o = next((x for x in (r.get("prep") or []) if x["kind"] == c["kind"] and x["name"] == c["name"]), None)
+        if o is None:
+            return {"skipped": "object not found in the working matrix"}
+        return {"name": o["wname"], "long": o["wlong"]}
     if op == "post":
         return observe_post(c, r)
     if op == "file":
@@ -766,6 +797,8 @@ def project(impl):
         return {"core": impl["core"]}
     if "final" in impl:
         return {"final": impl["final"]}
+    if "long" in impl:
+        return {"name": impl["name"], "long": impl["long"]}
     if "section" in impl:
         return {"section": impl["section"], "read": impl["read"]}
     if "lines" in impl:
@@ -832,6 +865,8 @@ def features(case, impl):
             yield "global-attributes"
         if impl.get("exc"):
             yield "exception"
+    elif case["op"] == "prep":
+        yield "prep:%s name %s 32 characters" % (c["kind"], "longer than" if len(c["name"]) > 32 else "up to")
     elif case["op"] == "core":
         yield "core:frames=%d" % min(len(c["frames"]), 5)
         if c.get("ecus") is not None:
